@@ -14,6 +14,8 @@ structure Cfg where
 structure St where
   cfg : Option Cfg := none
   strs : List Str := []
+  /-- `px`: common prefix put in front of the following `s` strings -/
+  pre : Str := []
 
 def hexVal (c : Char) : Option Nat :=
   if '0' ≤ c ∧ c ≤ '9' then some (c.toNat - '0'.toNat)
@@ -98,7 +100,7 @@ def runClassify (kind tb depth : Nat) (samples strs : List Str) (withStep : Bool
     let useCalc := kind = 0
     let spl ← (List.range ns).mapM fun i => liftO .oob (if useCalc then c.getSplitterCalc i else c.getSplitterArr i)
     let keys ← keysOf strs depth
-    let ids ← keys.mapM fun k => liftO .oob (c.findBkt useCalc k)
+    let ids ← keys.mapM fun k => liftO .oob ((c.findBkt useCalc k).map u16)   -- `std::uint16_t* bktout`
     let base := s!"ok spl={",".intercalate (spl.map fun k => toString k.toNat)} slcp={",".intercalate (c.slcp.map toString)} bkt={Drv.showCsv ids}"
     if ¬ withStep then pure base else
     let bktnum := 2 * ns + 1
@@ -133,13 +135,20 @@ def step (s : St) (ts : List String) : St × String :=
         ({ s with cfg := some { p := p, threads := t, withLcp := lcp = "1" } }, "ok")
       else ({ s with cfg := none }, "bad-op")
     | _, _, _ => ({ s with cfg := none }, "bad-op")
+  | ["px", w, len] =>
+    -- px <pattern> <len>: the following strings start with the pattern repeated up to `len` characters
+    match parseStr w, len.toNat? with
+    | some pat, some n =>
+      if pat.isEmpty ∨ n > 100000 then (s, "bad-op")
+      else ({ s with pre := ((List.replicate (n / pat.length + 1) pat).flatten).take n }, "ok")
+    | _, _ => (s, "bad-op")
   | ["s", w] =>
     match parseStr w with
-    | some x => ({ s with strs := s.strs ++ [x] }, "ok")
+    | some x => ({ s with strs := s.strs ++ [s.pre ++ x] }, "ok")
     | none => (s, "bad-op")
   | ["s", w, cnt] =>
     match parseStr w, cnt.toNat? with
-    | some x, some k => if 1 ≤ k ∧ k ≤ 100000 then ({ s with strs := s.strs ++ List.replicate k x }, "ok") else (s, "bad-op")
+    | some x, some k => if 1 ≤ k ∧ k ≤ 100000 then ({ s with strs := s.strs ++ List.replicate k (s.pre ++ x) }, "ok") else (s, "bad-op")
     | _, _ => (s, "bad-op")
   | ["go"] =>
     match s.cfg with
